@@ -39,6 +39,8 @@ Conventions
 * Ghost fields (`bufAcc` = number of `slice_mut()` calls on the adapter's own buffer, `elog` =
   encoder calls, the `log`s of the wrapped streams) exist to be compared with the real run.
 -/
+set_option linter.unusedVariables false
+
 namespace BV.Adapters
 
 abbrev Bytes := List Nat
